@@ -64,10 +64,14 @@ def confirm(meta, dst, patch):
     mods = sorted({f[4:-3].replace('/mod', '').replace('/', '::') for f in files})
     meta['touched'] = files
     demo_is_integration = os.path.exists(os.path.join(dst, 'demo.rs')) and '#[cfg(test)]' not in open(os.path.join(dst, 'demo.rs')).read()[:400]
+    feat = ''
+    if os.path.exists(os.path.join(dst, 'demo.rs')) and 'feature = "verif-hooks"' in open(os.path.join(dst, 'demo.rs')).read():
+        feat = ' --features verif-hooks'
+    meta['demo_needs_feature'] = feat.strip()
     if demo_is_integration:
         shutil.copy(os.path.join(dst, 'demo.rs'), os.path.join(WT, 'tests', 'vp_seed_demo.rs'))
-        rc, out, dt = sh('cargo test --offline --test vp_seed_demo 2>&1 | tail -15', cwd=WT)
-        ok_before = 'test result: ok' in out
+        rc, out, dt = sh('cargo test --offline%s --test vp_seed_demo 2>&1 | tail -15' % feat, cwd=WT)
+        ok_before = 'test result: ok' in out and ' 0 passed' not in out.split('test result: ok')[-1][:40]
         meta['ran'].append({'cmd': 'cargo test --test vp_seed_demo (unmodified tree)', 'passed': ok_before, 's': dt, 'tail': out[-400:]})
     rc, out, dt = sh('git apply %s' % patch, cwd=WT)
     meta['patch_applies'] = rc == 0
@@ -79,7 +83,7 @@ def confirm(meta, dst, patch):
             res = re.findall(r'test result: (\w+)\. (\d+) passed; (\d+) failed', out)
             meta['ran'].append({'cmd': 'cargo test --lib %s:: (with the change)' % m, 'result': res[-1] if res else None, 's': dt, 'tail': out[-300:] if not res else ''})
         if demo_is_integration:
-            rc, out, dt = sh('cargo test --offline --test vp_seed_demo 2>&1 | tail -25', cwd=WT)
+            rc, out, dt = sh('cargo test --offline%s --test vp_seed_demo 2>&1 | tail -25' % feat, cwd=WT)
             fails = ('test result: FAILED' in out) or ('panicked' in out)
             meta['ran'].append({'cmd': 'cargo test --test vp_seed_demo (with the change)', 'fails_as_expected': fails, 's': dt, 'tail': out[-600:]})
     sh('git checkout -- . && git clean -fdq tests/', cwd=WT)
@@ -88,6 +92,8 @@ def run_check(meta, prop, patch):
     # the check, against /repo itself
     rc, out, dt = sh('git -C /repo apply %s' % patch)
     det = {'applied_to_repo': rc == 0}
+    evf = '/verif/evidence/%s.json' % prop
+    saved = open(evf).read() if os.path.exists(evf) else None   # a seeded run must not leave its evidence behind
     if rc == 0:
         try:
             rc2, out2, dt2 = sh('cd /verif && ./check %s --tier quick 2>&1 | grep -a "VIOLATION\\|KNOWN-FINDING\\|OK (" | cut -c1-300' % prop, env=dict(os.environ), timeout=5400)
@@ -97,6 +103,8 @@ def run_check(meta, prop, patch):
                 det['replay_excerpt'] = open(rp.group(1)).read()[:1500]
         finally:
             sh('git -C /repo checkout -- .')
+            if saved is not None:
+                open(evf, 'w').write(saved)
     meta['check'] = det
 
 if __name__ == '__main__':
